@@ -17,56 +17,109 @@ SPEC = os.path.join(vlib.SPECS, "json")
 _bad_re = re.compile(r'^<<"BADCASE", (\d+), "(.*)">>$', re.M)
 
 
-def model_check(ctx):
-    """The specification against itself: test vectors (RFC 4648, two's complement, decimal
-    parsing, Annex F example) and, on every generated case, Conforms(ds, Shape(ds)),
-    SameDs(ds, NormJson(ds)), NormJson idempotent."""
-    r = vlib.tlc(SPEC, "MC_DicomJson", "MC_DicomJson.cfg", workers=1, timeout=600, coverage=False)
-    ctx.check_model(r, "MC_DicomJson test vectors")
-    vlib.log("[%s] test vectors checked by TLC in %.1fs" % (ctx.pid, r.wall_s))
-    if "Assumption" in r.out and "is false" in r.out:
-        raise vlib.ToolError("MC_DicomJson: an assumption is false:\n" + r.out[-2000:])
-    r = vlib.tlc(SPEC, "Gen_DicomJson", "MC_Gen_self_%s.cfg" % ("quick" if ctx.quick else "thorough"), workers=1,
-                 timeout=1800, coverage=False, heap="6g")
+def generate(ctx):
+    """One TLC run: the test vectors of DicomJsonVectors (RFC 4648, two's complement, decimal
+    parsing, Annex F example, inputs the validators must reject), the specification against
+    itself on every generated case (Conforms(ds, Shape(ds)), SameDs(ds, NormJson(ds)), NormJson
+    idempotent) and the cases {ds, shape, norm} themselves.  A failure is a tool error."""
+    cases = ctx.path("cases.ndjson")
+    try:
+        r, n = vlib.tlc_generate(SPEC, "Gen_DicomJson", "Gen_DicomJson_%s.cfg" % ("quick" if ctx.quick else "thorough"), cases,
+                                 timeout=1800, heap="6g")
+    except vlib.ToolError as e:
+        raise vlib.ToolError("DicomJson.tla fails its own test vectors / self-consistency: %s" % e)
     if "INCONSISTENT" in r.out:
         raise vlib.ToolError("DicomJson.tla is not self-consistent on a generated case:\n" + r.out[-3000:])
-    ctx.check_model(r, "self-consistency of Shape/Conforms/NormJson/SameDs on the generated cases")
-    vlib.log("[%s] specification self-consistent on all generated cases (%.1fs)" % (ctx.pid, r.wall_s))
-
-
-def generate(ctx):
-    cases = ctx.path("cases.ndjson")
-    r, n = vlib.tlc_generate(SPEC, "Gen_DicomJson", "Gen_DicomJson_%s.cfg" % ("quick" if ctx.quick else "thorough"), cases,
-                             timeout=1800, heap="6g")
     ctx.add_tlc(r)
     if n < 1000:
         raise vlib.ToolError("generator produced only %d cases" % n)
-    vlib.log("[%s] %d data sets generated by TLC in %.1fs" % (ctx.pid, n, r.wall_s))
+    vlib.log("[%s] %d data sets generated and self-checked by TLC in %.1fs" % (ctx.pid, n, r.wall_s))
+    ctx.extra_cov["spec_self_check"] = "%d test-vector assumptions + Conforms(ds,Shape(ds)), SameDs(ds,NormJson(ds)) on %d cases" % (
+        sum(1 for ln in open(os.path.join(SPEC, "DicomJsonVectors.tla")) if ln.startswith("ASSUME")), n)
     return cases, n
 
 
-def judge(ctx, events_path, mode):
-    """Validate an events file with Trace_DicomJson (Mode = shape | rt).  Returns
-    [(line, diagnosis_list, event)] for the events TLC found bad."""
-    res = vlib.validate_trace(SPEC, "Trace_DicomJson", events_path, cfg="Trace_DicomJson_%s.cfg" % mode, timeout=1800, heap="6g")
+def judge_all(ctx, mode, parts, corruptions):
+    """One TLC run of Trace_DicomJson (Mode = shape | rt) over the concatenation of the events
+    files in `parts` [(label, events_path)], followed by a binding self-test section: copies of
+    recorded events with one field corrupted by each of `corruptions` [(label_of_part, fn)];
+    TLC must flag every corrupted copy.  Returns {label: [(local_line, diagnosis, event)]}, total."""
+    comb = ctx.path("judge_%s.ndjson" % mode)
+    index = []          # global line -> (label, local line)
+    per_label = {}
+    with open(comb, "w") as out:
+        for label, path in parts:
+            evs = []
+            with open(path) as f:
+                for i, ln in enumerate(f, 1):
+                    out.write(ln if ln.endswith("\n") else ln + "\n")
+                    index.append((label, i))
+                    if len(evs) < 600:
+                        evs.append(ln)
+            per_label[label] = evs
+        n_real = len(index)
+        expected = []
+        for label, fn in corruptions:
+            k = 0
+            for i, ln in enumerate(per_label.get(label, [])):
+                if i % 53 != 7:
+                    continue
+                e = json.loads(ln)
+                if fn(e):
+                    e["src"] = "selftest"
+                    out.write(json.dumps(e, separators=(",", ":")) + "\n")
+                    index.append(("selftest", len(index) + 1))
+                    expected.append(len(index))
+                    k += 1
+            if k == 0:
+                raise vlib.ToolError("binding self-test: nothing to corrupt in " + label)
+    res = vlib.validate_trace(SPEC, "Trace_DicomJson", comb, cfg="Trace_DicomJson_%s.cfg" % mode, timeout=1800, heap="6g")
     r = res["result"]
     ctx.add_tlc(r)
     if not res["accepted"]:
-        raise vlib.ToolError("Trace_DicomJson did not consume %s (line %s): %s" % (events_path, res["line"], str(res["record"])[:500]))
-    n = vlib.count_lines(events_path)
-    if r.distinct != n + 1:
-        raise vlib.ToolError("Trace_DicomJson consumed %d of %d events" % (r.distinct - 1, n))
-    vlib.log("[%s] %d events of %s judged by TLC (Mode=%s) in %.1fs" % (ctx.pid, n, os.path.basename(os.path.dirname(events_path)), mode, r.wall_s))
-    bad = [(int(m.group(1)), sorted(json.loads(vlib.tla_unescape(m.group(2))))) for m in _bad_re.finditer(r.out)]
-    if not bad:
-        return [], n
-    lines = {}
-    want = {b[0] for b in bad}
-    with open(events_path) as f:
-        for i, ln in enumerate(f, 1):
-            if i in want:
-                lines[i] = json.loads(ln)
-    return [(ln, d, lines[ln]) for ln, d in bad], n
+        raise vlib.ToolError("Trace_DicomJson did not consume %s (line %s): %s" % (comb, res["line"], str(res["record"])[:500]))
+    if r.distinct != len(index) + 1:
+        raise vlib.ToolError("Trace_DicomJson consumed %d of %d events" % (r.distinct - 1, len(index)))
+    vlib.log("[%s] %d recorded events (+%d corrupted copies) judged by TLC (Mode=%s) in %.1fs" % (ctx.pid, n_real, len(expected), mode, r.wall_s))
+    bad = {int(m.group(1)): sorted(json.loads(vlib.tla_unescape(m.group(2)))) for m in _bad_re.finditer(r.out)}
+    missing = [g for g in expected if g not in bad]
+    if missing:
+        raise vlib.ToolError("binding self-test (%s): %d corrupted events were not flagged by TLC (lines %s)" % (mode, len(missing), missing[:5]))
+    if corruptions:
+        ctx.extra_cov["binding_selftest_" + mode] = "%d recorded events copied with one corrupted field, all flagged by Trace_DicomJson" % len(expected)
+    result = {label: [] for label, _ in parts}
+    want = {g for g in bad if g <= n_real}
+    if want:
+        with open(comb) as f:
+            for g, ln in enumerate(f, 1):
+                if g in want:
+                    label, local = index[g - 1]
+                    result[label].append((local, bad[g], json.loads(ln)))
+    return result, n_real
+
+
+def replay(ctx, mode, report_cases, report_docs=None):
+    """bin/check Cxx --replay <file>: re-execute the recorded data set / document alone and let
+    TLC judge it again."""
+    with open(ctx.replay) as f:
+        obj = json.load(f)["replay"]
+    vlib.build_harness(["drv_json"])
+    if obj.get("document") is not None:
+        docs = ctx.path("docs.ndjson")
+        vlib.write_ndjson(docs, [{"kind": obj["event"].get("kind", "replay"), "doc": obj["document"]}])
+        rep = vlib.run_driver("drv_json", ["parse", "--docs", docs, "--out", ctx.path("replay")], env=ctx.env())
+        bad, n = judge_all(ctx, mode, [("doc", rep["events_path"])], [])
+        if report_docs:
+            report_docs(bad["doc"], {r["line"]: r for r in vlib.read_ndjson(rep["failing_path"])})
+    else:
+        cases = ctx.path("cases.ndjson")
+        vlib.write_ndjson(cases, [{"ds": obj["event"]["ds"], "shape": None, "norm": None}])
+        rep = vlib.run_driver("drv_json", ["cases", "--cases", cases, "--out", ctx.path("replay")], env=ctx.env())
+        bad, n = judge_all(ctx, mode, [("case", rep["events_path"])], [])
+        report_cases(bad["case"], texts_of(rep["texts_path"]), "replayed data set")
+    ctx.cov["evaluations"] += 1
+    ctx.cov["traces_validated_against_impl"] += n
+    ctx.level = "exploration"
 
 
 def texts_of(path):
@@ -75,24 +128,6 @@ def texts_of(path):
         for t in vlib.read_ndjson(path):
             out[t["line"]] = t.get("text")
     return out
-
-
-def selftest(ctx, events_path, mode, corrupt):
-    """Binding self-test: corrupt one recorded field in a few events; TLC must flag exactly those."""
-    evs = vlib.read_ndjson(events_path)[:400]
-    hit = []
-    for i, e in enumerate(evs):
-        if i % 57 == 5 and corrupt(e):
-            hit.append(i + 1)
-    p = ctx.path("selftest_%s.ndjson" % mode)
-    vlib.write_ndjson(p, evs)
-    bad, _ = judge(ctx, p, mode)
-    flagged = sorted(b[0] for b in bad)
-    missing = [h for h in hit if h not in flagged]
-    if not hit or missing:
-        raise vlib.ToolError("binding self-test (%s): corrupted events %s, TLC flagged %s" % (mode, hit, flagged))
-    ctx.extra_cov["binding_selftest_" + mode] = "corrupted %d recorded events, all flagged by Trace_DicomJson" % len(hit)
-    return flagged
 
 
 def vr_list(d):
